@@ -233,6 +233,46 @@ func ttestReplay(in io.Reader, raw bool, args []string) (*Summary, error) {
 				}
 			}
 		}
+		// constant samples of values that are not exactly representable (0.1, 0.3, 123.456...) still have variance exactly
+		// 0: the documented zero-variance error must not depend on whether the constant is a "nice" float
+		for _, aw := range []struct{ s, o float64 }{{0.1, 0.3}, {1.0 / 3, 123.456}, {1e-7, 0.7}} {
+			mk := func(x []int64) []float64 {
+				out := make([]float64, len(x))
+				for i, v := range x {
+					out[i] = aw.s*float64(v) + aw.o
+				}
+				return out
+			}
+			a, b := mk(tc.X1), mk(tc.X2)
+			sa, sb := stats.Sample{Xs: a}, stats.Sample{Xs: b}
+			expect := func(what string, want ttRes, call func() (*stats.TTestResult, error)) {
+				if want.Err != "zerovar" {
+					return
+				}
+				sum.Checks++
+				if res, err := call(); res != nil || !errors.Is(err, stats.ErrZeroVariance) {
+					sum.viol(what+"-error", c, "constant samples of inexact values (x -> %v x + %v): got (%+v, %v) want ErrZeroVariance", aw.s, aw.o, res, err)
+				}
+			}
+			expect("TwoSampleTTest", tc.Pooled, func() (*stats.TTestResult, error) { return stats.TwoSampleTTest(sa, sb, stats.LocationDiffers) })
+			expect("TwoSampleWelchTTest", tc.Welch, func() (*stats.TTestResult, error) { return stats.TwoSampleWelchTTest(sa, sb, stats.LocationLess) })
+			if len(tc.One) > 0 {
+				expect("OneSampleTTest", tc.One[0].R, func() (*stats.TTestResult, error) { return stats.OneSampleTTest(sa, 0.25, stats.LocationGreater) })
+			}
+			identical := len(a) == len(b)
+			for i := range a {
+				identical = identical && i < len(b) && a[i] == b[i]
+			}
+			if len(tc.Paired) > 0 && identical { // (differences of inexact floats are constant for certain only when they are all zero)
+				expect("PairedTTest", tc.Paired[0].R, func() (*stats.TTestResult, error) { return stats.PairedTTest(a, b, 0.25, stats.LocationDiffers) })
+			}
+			if len(a) >= 2 && tc.Var1[0] == 0 {
+				sum.Checks++
+				if mean, lo, hi := stats.MeanCI(a, 0.9); lo != mean || hi != mean {
+					sum.viol("MeanCI", c, "constant sample of %v: interval (%v, %v) around %v should have zero width", a[0], lo, hi, mean)
+				}
+			}
+		}
 	})
 	sum.note("worst_T_error_over_tolerance", worst)
 	return sum, err
